@@ -467,8 +467,16 @@ impl ShmemControlBlock {
 
         // V5 fields
         if self.version >= 5 && data.len() >= V5_BASE_HEADER_SIZE {
+            // Only bit 0 of the dword is the exclusive access flag: the other bits
+            // belong to whoever stored them and are kept
             let ea_byte_offset = V5_EXCLUSIVE_FLAG_OFFSET * 4;
-            let ea_dword: u32 = u32::from(self.exclusive_access);
+            let old_dword = u32::from_le_bytes([
+                data[ea_byte_offset],
+                data[ea_byte_offset + 1],
+                data[ea_byte_offset + 2],
+                data[ea_byte_offset + 3],
+            ]);
+            let ea_dword: u32 = (old_dword & !1) | u32::from(self.exclusive_access);
             data[ea_byte_offset..ea_byte_offset + 4].copy_from_slice(&ea_dword.to_le_bytes());
 
             if let Some(ref pt) = self.pid_tracking
